@@ -781,25 +781,68 @@ example : mpz_cmp_d ⟨1, [2 ^ 53 + 1]⟩ 0x4340000000000000 = some 1 ∧ mpz_cm
 
 /-- mpf_get_d_spec.  An mpf is F.mant · B^(exp - |size|) (signed integer mantissa, limb exponent).  mpf_get_d returns
     that value truncated toward zero to a double — ±∞ above the double range, denormals truncated, +0.0 below —
-    for every well-formed operand whose bit exponent (exp - |size|)·64 is representable in a `long`
-    (the C computes it in `long`, mpf/get_d.c:36). -/
-theorem mpf_get_d_spec (f : F) (hf : f.wf) (hsz : f.d.length < 2 ^ 57)
-    (he1 : LONG_MIN ≤ (f.exp - f.size.natAbs) * 64) (he2 : (f.exp - f.size.natAbs) * 64 ≤ LONG_MAX) :
+    for every well-formed operand and EVERY exponent of an mp_exp_t (the bit exponent (exp - |size|)·64 need not
+    fit a `long`: mpf/get_d.c:39-44 saturates; before /repo commit 0f91e63 it overflowed).
+    Hypotheses: |size| < 2^31 (`_mp_size` is an int) and exp - |size| is representable in a long. -/
+theorem mpf_get_d_spec (f : F) (hf : f.wf) (hsz : f.d.length < 2 ^ 31)
+    (he1 : LONG_MIN ≤ f.exp - f.size.natAbs) (he2 : f.exp - f.size.natAbs ≤ LONG_MAX) :
     mpf_get_d f = truncToDouble f.mant ((f.exp - f.size.natAbs) * 64) ∧
     decode (mpf_get_d f) = truncate53 f.mant ((f.exp - f.size.natAbs) * 64) := by
   have main : mpf_get_d f = truncToDouble f.mant ((f.exp - f.size.natAbs) * 64) := by
-    unfold mpf_get_d F.mant
+    unfold mpf_get_d
     by_cases h0 : f.size = 0
     · have : val f.d = 0 := val_eq_zero_of_nil (by rw [hf.1, h0]; rfl)
+      unfold F.mant
       rw [if_pos h0, this, h0]; simp [truncToDouble_zero]
     · rw [if_neg h0]
-      exact mpn_get_d_eq f.d f.size _ hf.2.1 hf.2.2.1 hsz he1 he2
+      dsimp only
+      have hne : f.d ≠ [] := by intro e; have := hf.1; rw [e] at this; simp at this; omega
+      obtain ⟨hbl, hls⟩ := bitlen_val hf.2.1 hne hf.2.2.1
+      have hn : 1 ≤ f.d.length := by cases hd : f.d with | nil => exact absurd hd hne | cons _ _ => simp
+      have hv : 1 ≤ val f.d := le_trans (Bpow_pos _) (val_ge_of_top f.d hne hf.2.2.1)
+      have hx : f.mant ≠ 0 := by unfold F.mant; split <;> omega
+      have hxa : f.mant.natAbs = val f.d := by unfold F.mant; split <;> omega
+      have hsz' : f.d.length < 2 ^ 57 := by omega
+      have hmant : (if f.size < 0 then -(val f.d : Int) else (val f.d : Int)) = f.mant := rfl
+      unfold LONG_MIN at he1; unfold LONG_MAX at he2
+      obtain ⟨EMAX, hEMAX⟩ : ∃ E : Int, E = LONG_MAX := ⟨_, rfl⟩
+      obtain ⟨EMIN, hEMIN⟩ : ∃ E : Int, E = LONG_MIN / 2 := ⟨_, rfl⟩
+      have q0 : EMAX = 2 ^ 63 - 1 := by rw [hEMAX]; rfl
+      have q1 : LONG_MAX / 64 = 2 ^ 57 - 1 := by unfold LONG_MAX; norm_num
+      have q2 : LONG_MIN / 64 = -(2 ^ 57) := by unfold LONG_MIN; norm_num
+      have q3 : EMIN = -(2 ^ 62) := by rw [hEMIN]; unfold LONG_MIN; norm_num
+      rw [q1, q2, ← hEMAX, ← hEMIN]
+      clear hEMAX hEMIN q1 q2
+      by_cases big : f.exp - (f.size.natAbs : Int) > 2 ^ 57 - 1
+      · rw [if_pos big]
+        have e := mpn_get_d_eq f.d f.size EMAX hf.2.1 hf.2.2.1 hsz' (by unfold LONG_MIN; omega) (by unfold LONG_MAX; omega)
+        rw [e, hmant]
+        obtain ⟨c1, _, _, _⟩ := trunc_cases f.mant EMAX hx
+        obtain ⟨d1, _, _, _⟩ := trunc_cases f.mant ((f.exp - (f.size.natAbs : Int)) * 64) hx
+        rw [hxa] at c1 d1
+        have g1 : (bitlen (val f.d) : Int) + EMAX > 1024 := by omega
+        have g2 : (bitlen (val f.d) : Int) + (f.exp - (f.size.natAbs : Int)) * 64 > 1024 := by omega
+        rw [c1 g1]; exact (d1 g2).symm
+      · rw [if_neg big]
+        by_cases small : f.exp - (f.size.natAbs : Int) < -(2 ^ 57)
+        · rw [if_pos small]
+          have e := mpn_get_d_eq f.d f.size EMIN hf.2.1 hf.2.2.1 hsz' (by unfold LONG_MIN; omega) (by unfold LONG_MAX; omega)
+          rw [e, hmant]
+          obtain ⟨_, _, _, c4⟩ := trunc_cases f.mant EMIN hx
+          obtain ⟨_, _, _, d4⟩ := trunc_cases f.mant ((f.exp - (f.size.natAbs : Int)) * 64) hx
+          rw [hxa] at c4 d4
+          have g1 : (bitlen (val f.d) : Int) + EMIN ≤ -1074 := by omega
+          have g2 : (bitlen (val f.d) : Int) + (f.exp - (f.size.natAbs : Int)) * 64 ≤ -1074 := by omega
+          rw [c4 g1]; exact (d4 g2).symm
+        · rw [if_neg small]
+          exact mpn_get_d_eq f.d f.size _ hf.2.1 hf.2.2.1 hsz' (by unfold LONG_MIN; omega) (by unfold LONG_MAX; omega)
   exact ⟨main, by rw [main]; exact decode_truncToDouble _ _⟩
 
 -- non-vacuity: 1.5 = [2^63, 1]·B^(1-2); -(2^64+1)·B^16 overflows; 1·B^-17 = 2^-1088 is below the denormals;
 -- 1.5·2^-1074 truncates to the smallest denormal
 example : mpf_get_d ⟨2, 1, [2 ^ 63, 1]⟩ = 0x3FF8000000000000 ∧ mpf_get_d ⟨-2, 18, [1, 1]⟩ = 0xFFF0000000000000 ∧
-    mpf_get_d ⟨1, -16, [1]⟩ = 0 ∧ mpf_get_d ⟨1, -16, [3 * 2 ^ 13]⟩ = 1 := by decide
+    mpf_get_d ⟨1, -16, [1]⟩ = 0 ∧ mpf_get_d ⟨1, -16, [3 * 2 ^ 13]⟩ = 1 ∧
+    mpf_get_d ⟨1, 2 ^ 58, [2 ^ 63]⟩ = 0x7FF0000000000000 ∧ mpf_get_d ⟨1, -(2 ^ 58) + 1, [2]⟩ = 0 := by decide
 
 /-- mpf_get_d_2exp: the exponent is the bit position just above the value's leading bit and the double is the
     mantissa scaled into [0.5, 1) and truncated: decoded, d = ± m·2^-53 with m the 53 leading bits. -/
